@@ -40,17 +40,18 @@ type event struct {
 }
 
 type world struct {
-	t        *testing.T
-	dir      string
-	port     map[string]int // "p1","p2" -> tcp port
-	busy     net.Listener   // a port held by the harness (fail@listen)
-	mu       sync.Mutex     // orders the trace
-	events   []event
-	nextID   int64
-	p2lock   sync.RWMutex // held for reading by requests to p2, for writing across reloads that may drop p2
-	p2stable bool
-	bad      []event
-	sigDone  chan string // signal-driven reloads: how the reload ended, told by the callback gates
+	t         *testing.T
+	dir       string
+	port      map[string]int // "p1","p2" -> tcp port
+	busy      net.Listener   // a port held by the harness (fail@listen)
+	mu        sync.Mutex     // orders the trace
+	events    []event
+	nextID    int64
+	p2lock    sync.RWMutex // held for reading by requests to p2, for writing across reloads that may drop p2
+	p2stable  bool
+	bad       []event
+	viaImport bool        // the configuration text lives in an imported file, the main text is constant
+	sigDone   chan string // signal-driven reloads: how the reload ended, told by the callback gates
 }
 
 func (w *world) emit(e event) {
@@ -91,6 +92,12 @@ func (w *world) config(gen int, kind string, ports []string) casket.Input {
 	if kind == "failparse" {
 		b.WriteString("127.0.0.1:1 {\n\troot /\n")
 	}
+	if w.viaImport {
+		// the main Casketfile never changes: it imports a file that is rewritten for every
+		// generation (a reload must pick up what the configuration refers to, not only its own text)
+		os.WriteFile(filepath.Join(w.dir, "sites.conf"), []byte(b.String()), 0o644)
+		return casket.CasketfileInput{Contents: []byte("import sites.conf\n"), Filepath: filepath.Join(w.dir, "Casketfile"), ServerTypeName: "http"}
+	}
 	return casket.CasketfileInput{Contents: []byte(b.String()), Filepath: "Casketfile", ServerTypeName: "http"}
 }
 
@@ -110,7 +117,12 @@ func (w *world) get(a string, ms int) (int, string, string) {
 	addr := "127.0.0.1:" + strconv.Itoa(w.port[a])
 	var hdr []string
 	if ms > 0 {
-		hdr = append(hdr, fmt.Sprintf("X-Probe: sleep:%d;next", ms))
+		// every other slow request is served by a handler that watches the request context
+		op := "sleep"
+		if ms%2 == 0 {
+			op = "sleepctx"
+		}
+		hdr = append(hdr, fmt.Sprintf("X-Probe: %s:%d;next", op, ms))
 	}
 	r, err := hx.OneShot(addr, "GET", "/f.txt", addr, hdr...)
 	if err != nil {
@@ -176,7 +188,7 @@ func scenario(t *testing.T, rnd *rand.Rand, nReloads, nClients int, dropEvent bo
 	oldGrace := httpserver.GracefulTimeout
 	httpserver.GracefulTimeout = grace
 	defer func() { httpserver.GracefulTimeout = oldGrace }()
-	w := &world{t: t, dir: t.TempDir(), port: map[string]int{"p1": hx.FreePort(), "p2": hx.FreePort()}, p2stable: true, sigDone: make(chan string, 1)}
+	w := &world{t: t, dir: t.TempDir(), port: map[string]int{"p1": hx.FreePort(), "p2": hx.FreePort()}, p2stable: true, sigDone: make(chan string, 1), viaImport: rnd.Intn(2) == 0}
 	var err error
 	w.busy = hx.ListenFresh()
 	defer w.busy.Close()
